@@ -275,8 +275,10 @@ static ext2fs_generic_bitmap build_a(const struct ext2_bitmap_ops *ops)
 	LOAD_IN();
 	ASSUME(!IS32M(IN.magic));	/* legacy 32-bit bitmaps are dispatched to gen_bitmap.c (separate units) */
 	ASSUME(IN.cluster_bits >= 0 && IN.cluster_bits <= 32);
-#ifdef EXP_CB0
-	ASSUME(IN.cluster_bits == 0);
+#ifdef GEN64_CB_ENUM
+	/* units that enumerate the cluster shift: 0 (one block per cluster) and 4 (16 blocks per cluster, a typical
+	 * bigalloc ratio); stated in the units' `assumes` */
+	ASSUME(IN.cluster_bits == 0 || IN.cluster_bits == 4);
 #endif
 	ASSUME(IN.start <= IN.end && IN.end <= IN.real_end);
 	ASSUME(IN.real_end < (MAX_BLOCKS >> IN.cluster_bits));
@@ -295,6 +297,11 @@ static ext2fs_generic_bitmap build_a(const struct ext2_bitmap_ops *ops)
  * this is a complete enumeration, not a restriction). */
 #ifdef NO_SPLIT_CB
 #define SPLIT_CB(fn, g) fn(g)
+#elif defined(GEN64_CB_ENUM)
+#define CB_CASE(n, fn, g) case n: BMA.cluster_bits = n; BMB.cluster_bits = n; fn(g); break;
+#define SPLIT_CB(fn, g) switch (BMA.cluster_bits) { \
+	CB_CASE(0, fn, g) CB_CASE(4, fn, g) \
+	default: CHECK(0, "cluster_bits outside {0, 4} is excluded by the assumption of this unit"); }
 #else
 #define CB_CASE(n, fn, g) case n: BMA.cluster_bits = n; fn(g); break;
 #define SPLIT_CB(fn, g) switch (BMA.cluster_bits) { \
@@ -306,3 +313,14 @@ static ext2fs_generic_bitmap build_a(const struct ext2_bitmap_ops *ops)
 	CB_CASE(30, fn, g) CB_CASE(31, fn, g) CB_CASE(32, fn, g) \
 	default: CHECK(0, "cluster_bits outside 0..32 is excluded by the precondition"); }
 #endif
+
+/* ---- preconditions shared by the units: the handle is NULL or bitmap A, well formed, over the model backend `ops`;
+ * the call log is empty and the ghost copy of the membership of verif_k is current */
+static int pre_a(ext2fs_generic_bitmap g, const struct ext2_bitmap_ops *ops)
+{
+	return g == 0 || (g == (ext2fs_generic_bitmap)&BMA && WF64(g, ops, &verif_g0));
+}
+#define PRE_A(g, ops) pre_a(g, ops)
+#define PRE_LOG (G_CALLS == 0 && G_WARN == 0 && verif_g0 == (unsigned)verif_old_bit && verif_g0 <= 1)
+#define IMPL(a, b) (!(a) || (b))
+#define MAXU(a, b) ((a) >= (b) ? (a) : (b))
